@@ -24,7 +24,7 @@ def log(*a):
 # scratch copy of /repo's current working tree + harness injection
 # ---------------------------------------------------------------------------
 
-INJECT = '\n#[cfg(kani)]\n#[path = "%s"]\nmod %s;\n'
+INJECT = '\n#[cfg(kani)]\n#[path = "%s"]\npub(crate) mod %s;\n'
 
 
 def sh(cmd, cwd=None, env=None, timeout=None, out=None):
@@ -63,8 +63,10 @@ def prepare_scratch(modules, need_ref=False):
     if rc != 0:
         raise RuntimeError("rsync failed: " + out)
     digest = tree_digest(dst)
+    # snapshot of the harness sources for this run (edits to /verif during a run must not leak in)
+    hdir = os.path.join(scratch, "harness")
+    shutil.copytree(os.path.join(VERIF, "harness"), hdir)
     # inject harness modules as children of the module they exercise
-    hdir = os.path.join(VERIF, "harness")
     with open(os.path.join(dst, "src", "lib.rs"), "a") as f:
         f.write(INJECT % (os.path.join(hdir, "common.rs"), "verif_common"))
     for m in sorted(modules):
@@ -76,6 +78,19 @@ def prepare_scratch(modules, need_ref=False):
             raise RuntimeError("source module src/%s.rs not found in /repo (renamed?)" % m)
         with open(sp, "a") as f:
             f.write(INJECT % (hp, "verif_harness"))
+    # C04: plain-typed export modules, the same text is compiled into the frozen reference crate
+    xdir = os.path.join(scratch, "export")
+    shutil.copytree(os.path.join(VERIF, "reference", "export"), xdir)
+    with open(os.path.join(dst, "src", "lib.rs"), "a") as f:
+        f.write(INJECT % (os.path.join(xdir, "common.rs"), "verif_export_common"))
+    for fn in sorted(os.listdir(xdir)):
+        if fn == "common.rs":
+            continue
+        sp = os.path.join(dst, "src", fn)
+        if not os.path.exists(sp):
+            raise RuntimeError("source module src/%s not found in /repo (renamed?)" % fn)
+        with open(sp, "a") as f:
+            f.write(INJECT % (os.path.join(xdir, fn), "verif_export"))
     # dependency shims ([patch.crates-io]) — crc32fast uses inline asm, zstd is FFI
     shims = os.path.join(VERIF, "shims")
     patch = "\n[patch.crates-io]\n"
@@ -85,14 +100,19 @@ def prepare_scratch(modules, need_ref=False):
         if os.path.isdir(p):
             patch += '%s = { path = "%s" }\n' % (name, p)
             n += 1
-    extra = ""
-    if need_ref:
-        rp = os.path.join(VERIF, "reference", "preflate_ref")
-        extra = '\n[target.\'cfg(kani)\'.dependencies]\npreflate_ref = { path = "%s" }\n' % rp
-    with open(os.path.join(dst, "Cargo.toml"), "a") as f:
+    rp = os.path.join(scratch, "preflate_ref")  # private copy: cargo writes Cargo.lock/target next to it
+    shutil.copytree(os.path.join(VERIF, "reference", "preflate_ref"), rp, ignore=shutil.ignore_patterns("target", "Cargo.lock"))
+    for fn in os.listdir(os.path.join(rp, "src")):
+        pth = os.path.join(rp, "src", fn)
+        t = open(pth).read()
+        if '#[path = "../../export/' in t:
+            open(pth, "w").write(t.replace('#[path = "../../export/', '#[path = "%s/' % xdir))
+    ct = open(os.path.join(dst, "Cargo.toml")).read()
+    ct = ct.replace("[dependencies]\n", '[dependencies]\npreflate_ref = { path = "%s" }\n' % rp, 1)
+    with open(os.path.join(dst, "Cargo.toml"), "w") as f:
+        f.write(ct)
         if n:
             f.write(patch)
-        f.write(extra)
         f.write("\n[workspace]\n")
     return scratch, dst, digest
 
@@ -107,26 +127,24 @@ def run_generators(scratch, dst):
     gen_dir = os.path.join(scratch, "gen")
     os.makedirs(gen_dir, exist_ok=True)
     envadd = {"VERIF_GEN": gen_dir}
-    gsrc = os.path.join(VERIF, "native", "gen_tables.rs")
+    gsrc = os.path.join(scratch, "gen_tables.rs")
+    shutil.copy(os.path.join(VERIF, "native", "gen_tables.rs"), gsrc)
     out_rs = os.path.join(gen_dir, "fixed_tables.rs")
-    if os.path.exists(gsrc):
-        # compile as an integration test-like binary inside a native copy of the crate
-        nat = os.path.join(scratch, "native")
-        shutil.copytree(dst, nat, ignore=shutil.ignore_patterns("target"))
-        with open(os.path.join(nat, "src", "huffman_encoding.rs"), "a") as f:
-            f.write('\n#[cfg(test)]\n#[path = "%s"]\nmod verif_gen;\n' % gsrc)
-        # remove shims for native build: use the real crates
-        ct = open(os.path.join(nat, "Cargo.toml")).read()
-        ct = re.sub(r"\n\[patch\.crates-io\]\n(?:[^\[]*)", "\n", ct)
-        open(os.path.join(nat, "Cargo.toml"), "w").write(ct)
-        env = dict(ENV)
-        env["VERIF_GEN_OUT"] = out_rs
-        rc, out = sh(["cargo", "test", "--offline", "--lib", "--target-dir",
-                      os.path.join(scratch, "tnat"), "verif_gen", "--", "--nocapture"],
-                     cwd=nat, env=env, timeout=900,
-                     out=os.path.join(scratch, "gen.log"))
-        if rc != 0 or not os.path.exists(out_rs):
-            raise RuntimeError("table generator failed:\n" + out[-3000:])
+    # native copy of the scratch tree: huffman_encoding gets a child module that can see the
+    # private table fields; a tiny bin prints them.  Only normal dependencies are built.
+    nat = os.path.join(scratch, "native")
+    shutil.copytree(dst, nat, ignore=shutil.ignore_patterns("target"))
+    with open(os.path.join(nat, "src", "huffman_encoding.rs"), "a") as f:
+        f.write('\n#[path = "%s"]\npub mod verif_gen;\n' % gsrc)
+    with open(os.path.join(nat, "src", "lib.rs"), "a") as f:
+        f.write('\npub use huffman_encoding::verif_gen::verif_gen_tables;\n')
+    os.makedirs(os.path.join(nat, "src", "bin"), exist_ok=True)
+    shutil.copy(os.path.join(VERIF, "native", "verif_gen_main.rs"), os.path.join(nat, "src", "bin", "verif_gen.rs"))
+    rc, out = sh(["cargo", "run", "--offline", "--quiet", "--bin", "verif_gen", "--target-dir",
+                  os.path.join(scratch, "tnat"), "--", out_rs], cwd=nat, timeout=900, out=os.path.join(scratch, "gen.log"))
+    if rc != 0 or not os.path.exists(out_rs):
+        raise RuntimeError("table generator failed (inconclusive):\n" + out[-3000:])
+    shutil.rmtree(os.path.join(scratch, "tnat"), ignore_errors=True)
     return envadd
 
 
@@ -175,7 +193,7 @@ def parse_kani(out):
 def run_limited(cmd, cwd, env, logpath, timeout, mem_gb):
     """run under ulimit -v and a wall clock cap, kill the whole process group on timeout"""
     lim = int(mem_gb * 1024 * 1024)
-    shcmd = "ulimit -v %d; exec \"$@\"" % lim
+    shcmd = "ulimit -s unlimited 2>/dev/null || ulimit -s 1048576; ulimit -v %d; exec \"$@\"" % lim
     with open(logpath, "w") as lf:
         p = subprocess.Popen(["bash", "-c", shcmd, "bash"] + cmd, cwd=cwd, env=env, stdout=lf,
                              stderr=subprocess.STDOUT, start_new_session=True)
@@ -259,7 +277,8 @@ def run_harness(h, base_t, dst, scratch, envadd, playback=False):
             i = cmd.index("--cbmc-args") if "--cbmc-args" in cmd else len(cmd)
             cmd[i:i] = ["-Z", "concrete-playback", "--concrete-playback=print"]
         logpath = os.path.join(logd, name + (".playback" if playback else "") + ".log")
-        rc, out, to = run_limited(cmd, dst, env, logpath, h.get("timeout", 300), h.get("mem_gb", 8))
+        rc, out, to = run_limited(cmd, dst, env, logpath, h.get("timeout", 300) * (3 if playback else 1),
+                                  h.get("mem_gb", 8) * (2 if playback else 1))
         res["log"] = logpath
         pr = parse_kani(out)
         res.update(pr)
@@ -336,10 +355,10 @@ def replay_native(tests, module, scratch, tag):
     src = os.path.join(scratch, "repo")
     shutil.copytree(src, rdir, ignore=shutil.ignore_patterns("target"))
     if module == "common":
-        horig = os.path.join(VERIF, "harness", "common.rs")
+        horig = os.path.join(scratch, "harness", "common.rs")
         sp = os.path.join(rdir, "src", "lib.rs")
     else:
-        horig = os.path.join(VERIF, "harness", module + ".rs")
+        horig = os.path.join(scratch, "harness", module + ".rs")
         sp = os.path.join(rdir, "src", module + ".rs")
     hcopy = os.path.join(rdir, "verif_harness_%s.rs" % module)
     body = open(horig).read() + "\n#[cfg(test)]\nmod verif_playback {\n    use super::*;\n" + "\n".join(tests) + "\n}\n"
@@ -354,16 +373,18 @@ def replay_native(tests, module, scratch, tag):
             env.update({"CARGO_PROFILE_DEV_OPT_LEVEL": "3", "CARGO_PROFILE_DEV_DEBUG_ASSERTIONS": "false",
                         "CARGO_PROFILE_DEV_OVERFLOW_CHECKS": "false"})
         for n in names:
-            cmd = ["cargo", "kani", "playback", "-Z", "concrete-playback", "--", n]
+            cmd = ["cargo", "kani", "playback", "-Z", "concrete-playback", "--lib", "--", n]
             try:
                 rc, out = sh(cmd, cwd=rdir, env=env, timeout=1800)
             except subprocess.TimeoutExpired:
                 rc, out = -1, "timeout"
-            ran = re.search(r"test result: (\w+)\. (\d+) passed; (\d+) failed", out)
-            abnormal = "test exited abnormally" in out or "(signal:" in out
-            results[n][prof] = {"rc": rc, "failed": bool((ran and int(ran.group(3)) > 0) or abnormal),
-                                "ran": bool(ran and (int(ran.group(2)) + int(ran.group(3))) > 0) or abnormal,
-                                "tail": out[-1200:]}
+            # verdict = the line libtest prints for exactly this test; an abort (panic=abort paths,
+            # stack overflow, SIGSEGV) kills the test binary after "running 1 test" without a verdict
+            line = re.search(r"^test \S*%s \.\.\. (ok|FAILED)" % re.escape(n), out, re.M)
+            started = re.search(r"^running 1 test", out, re.M) is not None
+            aborted = started and line is None and re.search(r"\(signal: \d+|process didn't exit successfully", out) is not None
+            results[n][prof] = {"rc": rc, "failed": bool((line and line.group(1) == "FAILED") or aborted),
+                                "ran": bool(line) or aborted, "aborted": bool(aborted), "tail": out[-1200:]}
     shutil.rmtree(os.path.join(rdir, "target"), ignore_errors=True)
     return results, names
 
@@ -379,8 +400,8 @@ def write_evidence(prop, tier, seed, results, wall, violations, extra):
     obligations = discharged = 0
     for h, r in results:
         ok = r["status"] == "SUCCESS"
-        if ok and r.get("covers_sat", 0) > 0:
-            nontrivial += 1
+        if ok:
+            nontrivial += r.get("covers_sat", 0)
         obligations += r.get("checks", 0)
         discharged += r.get("checks", 0) - len(r.get("failed", [])) - len(r.get("undetermined", [])) if r.get("verdict") else 0
         hs.append({
@@ -399,13 +420,17 @@ def write_evidence(prop, tier, seed, results, wall, violations, extra):
     ev = {
         "property_id": prop, "tier": tier, "seed": seed, "level": "model_checking",
         "coverage": {
-            "evaluations": len(results),
+            "evaluations": sum(max(r.get("queries", 0), 1) for _, r in results),
+            "harnesses_run": len(results),
+            "harnesses_success": sum(1 for _, r in results if r["status"] == "SUCCESS"),
             "distinct_nontrivial": nontrivial,
-            "rule": "one evaluation = one Kani proof harness = one bounded symbolic execution of the named real "
-                    "functions with all inputs symbolic, decided by CBMC 6.11 + CaDiCaL (UNSAT of the negated "
-                    "assertions incl. unwinding assertions = holds for every input inside the stated bound). A harness "
-                    "is counted non-trivial only if it ended SUCCESS and at least one kani::cover! reachability witness "
-                    "was SATISFIED (and none unsatisfied); harnesses are distinct by name and encode different code/bounds.",
+            "rule": "one evaluation = one SAT query discharged by CBMC 6.11 + CaDiCaL over the bounded symbolic execution of the "
+                    "named real functions with all inputs symbolic (UNSAT of the negated assertions incl. unwinding assertions = "
+                    "holds for every input inside the stated bound; counted from 'Runtime decision procedure' lines in the solver log). "
+                    "distinct_nontrivial = number of distinct kani::cover! reachability witnesses that the solver SATISFIED in harnesses "
+                    "that ended SUCCESS: each is a different named scenario (e.g. 'hops == 2', 'five-byte varint') for which the solver "
+                    "exhibited a concrete input reaching the assertions, i.e. the harness is not vacuous there. A harness with an "
+                    "unsatisfied witness is reported VACUOUS (exit 2), never counted.",
             "samples": [{"harness": x["harness"], "claim": x["claim"], "bounds": x["bounds"],
                          "functions": x["functions_encoded"][:6]} for x in hs[:6]],
             "exhaustive": False,
@@ -462,8 +487,13 @@ def do_check(prop, tier, only, jobs):
     need_ref = any(h.get("needs_ref") for h in hs)
     need_gen = any(h.get("needs_gen") for h in hs)
     scratch = None
+    reuse = os.environ.get("VERIF_REUSE")  # developer aid: reuse a kept scratch (skips copy/generators/base build)
     try:
-        scratch, dst, digest = prepare_scratch(modules, need_ref=need_ref)
+        if reuse:
+            scratch, dst, digest = reuse, os.path.join(reuse, "repo"), "reused"
+            os.environ["VERIF_KEEP"] = "1"
+        else:
+            scratch, dst, digest = prepare_scratch(modules, need_ref=need_ref)
         log("[%s/%s] scratch %s (tree %s), %d harnesses" % (prop, tier, scratch, digest, len(hs)))
         # C04: announced format change => pass without equivalences (DESIGN §C04)
         extra = {"digest": digest, "coverage": {}}
@@ -473,14 +503,15 @@ def do_check(prop, tier, only, jobs):
             if ann.get("announced_change"):
                 log("format version constants differ from the reference build: change is announced; equivalences not required")
                 write_evidence(prop, tier, seed, [], time.time() - t0, 0, extra) if False else None
-        envadd = {}
-        if need_gen:
-            envadd = run_generators(scratch, dst)
+        if reuse:
+            envadd = {"VERIF_GEN": os.path.join(scratch, "gen")}
+        else:
+            envadd = run_generators(scratch, dst)  # always: harness modules include the generated constants
         # base build: dependencies + crate once, with the smoke harness
         base_t = os.path.join(scratch, "t_base")
         env = dict(ENV)
         env.update(envadd)
-        rc, out, to = run_limited(["cargo", "kani", "--harness", "verif_common::k00_smoke", "--exact", "-Z", "stubbing", "--target-dir", base_t,
+        rc, out, to = (0, "", False) if reuse else run_limited(["cargo", "kani", "--harness", "verif_common::k00_smoke", "--exact", "-Z", "stubbing", "--target-dir", base_t,
                                    "--only-codegen"], dst, env, os.path.join(scratch, "base.log"), 1200, 24)
         if rc != 0:
             log("BUILD FAILED (inconclusive, not a verdict on the property):")
@@ -506,6 +537,7 @@ def do_check(prop, tier, only, jobs):
         known = load_known()
         violations = 0
         inconclusive = 0
+        replays_done = 0
         for h, r in results:
             if r["status"] == "SUCCESS":
                 continue
@@ -531,6 +563,11 @@ def do_check(prop, tier, only, jobs):
             for fl in new[:8]:
                 log("   - %s | %s | %s" % (fl["name"], fl["desc"], fl["loc"]))
             # replay: concrete playback, then native run of the generated test against the real build
+            replays_done += 1
+            if replays_done > int(os.environ.get("VERIF_MAX_REPLAYS", "3")):
+                inconclusive += 1
+                log("NOT-REPLAYED harness=%s (replay budget used up by earlier failures of this run; run with --only to replay it)" % h["name"])
+                continue
             rp = run_harness(h, base_t, dst, scratch, envadd, playback=True)
             tests = PLAYBACK_RE.findall(rp.get("playback_out", ""))
             os.makedirs(REPLAY_DIR, exist_ok=True)
